@@ -9,7 +9,7 @@ LEAN = "PystogVerif.Props.C14"
 ENTRIES = ["Transformer.fourier_transform"]
 RULE = ("random grid (<=100 points; contains x=0 in ~55% of cases), data, uncertainty, output grid, optional window; "
         "non-trivial = at least 3 points inside the window")
-DIST = ["zero", "window", "grid"]
+DIST = ["zero", "window", "grid", "has_fortran"]
 SHRINK = None
 
 
@@ -22,8 +22,14 @@ def gen(rng, i, tier):
     xmax = None
     if rng.random() < 0.4:
         xmax = float(x[-1] + rng.uniform(0, 2)) if rng.random() < 0.5 else float(x[int(rng.integers(len(x) // 2, len(x)))])
+    fort = None
+    if rng.random() < 0.25:
+        nq = int(rng.integers(3, 60))
+        q0, dq = float(rng.uniform(0.1, 1.0)), float(rng.uniform(0.02, 0.3))
+        fort = dict(q=tolist(q0 + dq * np.arange(nq)), s=tolist(1 + data(rng, np.arange(nq, dtype=float), kind="smooth")[0]),
+                    nr=int(rng.integers(2, 25)), delr=float(rng.uniform(0.02, 0.4)), rho=float(10 ** rng.uniform(-2, 0)))
     return dict(x=tolist(x), y=tolist(y), dy=tolist(dy), xo=tolist(xo), xmax=xmax, zero=bool(x[0] == 0.0),
-                window=xmax is not None, grid=gk)
+                window=xmax is not None, grid=gk, fort=fort, has_fortran=fort is not None)
 
 
 def weight(x, a):
@@ -61,6 +67,16 @@ def evaluate(case):
         fails.append(f"lorch transform differs from plain transform of pre-multiplied data by {relerr(v0, vp, scale=sc):.3g}")
     if dy is not None and relerr(e0, ep, scale=float(np.abs(dy).max()) * float(hi - x.min()) + 1e-300) > 1e-9:
         fails.append("lorch uncertainty differs from plain uncertainty of pre-multiplied input uncertainty")
+    ft = case.get("fort")
+    if ft:
+        import fortran
+        q, sq = arr(ft["q"]), arr(ft["s"])
+        ref = fortran.stog_bit(q, sq, ft["nr"], ft["delr"], ft["rho"], True)
+        if ref is not None:
+            rF, gF = ref
+            _, gP, _ = t.S_to_g(q, sq, rF, rho=ft["rho"], lorch=True, OmittedXrangeCorrection=True)
+            if np.abs(np.asarray(gP) - gF).max() > 1e-9 * max(1.0, float(np.abs(gF - 1).max())):
+                fails.append(f"Lorch-damped S_to_g differs from the compiled Fortran stog_bit with its window by {np.abs(np.asarray(gP) - gF).max():.3g}")
     return fails
 
 
